@@ -1,6 +1,7 @@
 (* C33 -- proofs about Model/M_Convert.v *)
-From Coq Require Import ZArith NArith List Bool Lia.
+From Coq Require Import ZArith NArith List Bool Lia ZifyBool ZifyNat ZifyN.
 From CyVerif Require Import Lib.CInt Model.M_Convert.
+From CyVerif Require Model.M_IntFmt.
 Import ListNotations.
 Open Scope Z_scope.
 
@@ -429,25 +430,172 @@ Proof.
   intros H. inversion H; subst. rewrite Ha. reflexivity.
 Qed.
 
+(* --- the str object: the ascii flag is "every code point below 128" --- *)
+Lemma is_ascii_all s : is_ascii s = all_ascii s.
+Proof.
+  unfold is_ascii. induction s as [|c r IH]; [reflexivity|].
+  cbn [maxchar fold_right all_ascii forallb]. fold (maxchar r). fold (all_ascii r).
+  rewrite <- IH. destruct (N.ltb_spec c 128), (N.ltb_spec (maxchar r) 128); cbn [andb]; lia.
+Qed.
+
+Lemma kind1_not_ascii : exists s, kind_of s = K1BYTE /\ is_ascii s = false.
+Proof. exists [233%N]. split; reflexivity. Qed.
+
+(* --- sizes of the UTF-8 form --- *)
+Lemma ns_zs l : ns (zs l) = l.
+Proof. unfold ns, zs. rewrite map_map. rewrite <- (map_id l) at 2. apply map_ext. intros a. apply N2Z.id. Qed.
+
+Lemma utf8_ref_ascii c : (c < 128)%N -> ns (M_IntFmt.utf8_ref (Z.of_N c)) = [c].
+Proof.
+  intros H. unfold M_IntFmt.utf8_ref. replace (Z.of_N c <? 128) with true by lia.
+  cbn [ns map]. rewrite N2Z.id. reflexivity.
+Qed.
+
+Lemma utf8_ref_length z : 128 <= z -> (2 <= length (M_IntFmt.utf8_ref z))%nat.
+Proof.
+  intros H. unfold M_IntFmt.utf8_ref. replace (z <? 128) with false by lia.
+  destruct (z <? 2048); [cbn; lia|]. destruct (z <? 65536); cbn; lia.
+Qed.
+
+Lemma enc1_ascii c : (c < 128)%N -> utf8_enc1 c = Some [c].
+Proof.
+  intros H. unfold utf8_enc1, encodable, is_surrogate.
+  replace ((c <? 1114112)%N && negb ((55296 <=? c)%N && (c <=? 57343)%N)) with true by lia.
+  rewrite (utf8_ref_ascii c H). reflexivity.
+Qed.
+
+Lemma enc1_length c bs : utf8_enc1 c = Some bs ->
+  (1 <= length bs)%nat /\ (length bs = 1%nat <-> (c < 128)%N).
+Proof.
+  destruct (N.ltb_spec c 128) as [L|G].
+  - rewrite (enc1_ascii c L). intros [= <-]. cbn. lia.
+  - unfold utf8_enc1. destruct (encodable c); [|discriminate]. intros [= <-].
+    unfold ns. rewrite map_length. pose proof (utf8_ref_length (Z.of_N c)). lia.
+Qed.
+
+Lemma utf8_encode_ascii s : all_ascii s = true -> utf8_encode s = Ok s.
+Proof.
+  induction s as [|c r IH]; [reflexivity|]. cbn [all_ascii forallb]. fold (all_ascii r).
+  intros H. apply andb_prop in H as [Hc Hr]. cbn [utf8_encode].
+  rewrite (enc1_ascii c) by lia. rewrite (IH Hr). reflexivity.
+Qed.
+
+Lemma utf8_encode_length s : forall b, utf8_encode s = Ok b ->
+  (length s <= length b)%nat /\ (length s = length b <-> all_ascii s = true).
+Proof.
+  induction s as [|c r IH]; intros b; cbn [utf8_encode].
+  - intros [= <-]. cbn. split; [lia|]. split; reflexivity.
+  - destruct (utf8_enc1 c) as [bs|] eqn:E1; [|discriminate].
+    destruct (utf8_encode r) as [t|] eqn:Er; [|discriminate]. intros [= <-].
+    destruct (enc1_length c bs E1) as [L1 L2]. destruct (IH t eq_refl) as [M1 M2].
+    rewrite app_length. cbn [length all_ascii forallb]. fold (all_ascii r). split; [lia|].
+    rewrite andb_true_iff. destruct (N.ltb_spec c 128); split; intros; lia.
+Qed.
+
+Lemma firstn_length_all {A} (l : list A) : firstn (length l) l = l.
+Proof. apply firstn_all. Qed.
+
+(* --- the C helper computes CPython's s.encode(E) and reports the number of BYTES ---
+   all strings; Full API and Limited API with the NULL check; the Limited API as it is
+   (Limited false) on the strings PyUnicode_AsUTF8AndSize accepts (see asas_limited_refuted) *)
+Definition api_exact (a : api) (e : senc) (s : list N) : Prop :=
+  a = Limited false -> e = EAscii -> exists b, utf8_encode s = Ok b.
+
+Lemma utf8_encode_error s x : utf8_encode s = Err x -> x = UnicodeEncodeError.
+Proof.
+  revert x. induction s as [|c r IH]; cbn [utf8_encode]; [discriminate|].
+  intros x. destruct (utf8_enc1 c); [|intros [= <-]; reflexivity].
+  destruct (utf8_encode r); [discriminate|]. intros [= <-]. apply (IH e). reflexivity.
+Qed.
+
+Theorem asas_spec a e s : str_accepts_unicode e = true -> api_exact a e s ->
+  unicode_asas a e s = rmap (fun b => (b, length b)) (encode_with e s).
+Proof.
+  destruct e; try discriminate; intros _ Hx; unfold unicode_asas, py_as_utf8; cbn [encode_with cd_enc ascii_codec utf8_codec].
+  2: reflexivity.
+  destruct a as [|checked].
+  - rewrite is_ascii_all. destruct (all_ascii s) eqn:A; [|reflexivity].
+    rewrite (utf8_encode_ascii s A). reflexivity.
+  - destruct (utf8_encode s) as [b|x] eqn:E.
+    + destruct (utf8_encode_length s b E) as [_ H]. destruct (all_ascii s) eqn:A.
+      * rewrite (utf8_encode_ascii s A) in E. injection E as <-. rewrite Nat.eqb_refl. reflexivity.
+      * destruct (Nat.eqb_spec (length s) (length b)) as [Q|Q]; [|reflexivity].
+        apply H in Q. discriminate.
+    + destruct (all_ascii s) eqn:A; [rewrite (utf8_encode_ascii s A) in E; discriminate|].
+      destruct checked.
+      * rewrite (utf8_encode_error s x E). reflexivity.
+      * destruct (Hx eq_refl eq_refl) as [b Hb]. rewrite E in Hb. discriminate.
+Qed.
+
+(* the Limited-API text as it is: a lone surrogate under ascii ends in SystemError *)
+Theorem asas_limited_refuted :
+  exists s, unicode_asas (Limited false) EAscii s = Err SystemError /\
+            encode_with EAscii s = Err UnicodeEncodeError.
+Proof. exists [97; 55296]%N. split; reflexivity. Qed.
+
+Definition api_sound (a : api) : Prop := a <> Limited false.
+Lemma api_sound_exact a e s : api_sound a -> api_exact a e s.
+Proof. intros H E. contradiction. Qed.
+
+Lemma sized_exact b : sized (b, length b) = Ok b.
+Proof. unfold sized. cbn [fst snd]. rewrite Nat.leb_refl, firstn_all. reflexivity. Qed.
+
+(* (pointer, length) users see exactly s.encode(E) *)
+Theorem as_string_and_size_str a sc s : api_exact a (sc_enc sc) s ->
+  as_string_and_size_l a sc (PStr s) = encode_with (sc_enc sc) s.
+Proof.
+  intros Hx. unfold as_string_and_size_l, obj_asas. destruct (str_accepts_unicode (sc_enc sc)) eqn:A.
+  - rewrite (asas_spec a _ s A Hx). destruct (encode_with (sc_enc sc) s); cbn [rmap bind]; [apply sized_exact|reflexivity].
+  - destruct (sc_enc sc); try discriminate; reflexivity.
+Qed.
+
+(* pointer-only users see the same bytes *)
+Theorem charp_from_py_str a sc s : api_exact a (sc_enc sc) s ->
+  charp_from_py_l a sc (PStr s) = rmap CBytes (encode_with (sc_enc sc) s).
+Proof.
+  intros Hx. unfold charp_from_py_l, obj_asas. destruct (str_accepts_unicode (sc_enc sc)) eqn:A.
+  - rewrite (asas_spec a _ s A Hx). destruct (encode_with (sc_enc sc) s); reflexivity.
+  - destruct (sc_enc sc); try discriminate; reflexivity.
+Qed.
+
+Lemma as_string_and_size_bytes a sc b :
+  as_string_and_size_l a sc (PBytes b) = Ok b /\ as_string_and_size_l a sc (PByteArray b) = Ok b.
+Proof. unfold as_string_and_size_l, obj_asas. cbn [bind]. rewrite sized_exact. split; reflexivity. Qed.
+
+Lemma full_exact e s : api_exact Full e s.
+Proof. intros H. discriminate. Qed.
+
+(* the Limited-API variant of the helper (with the NULL check) is observably the same function;
+   as it is, it is the same on every argument but a str with a lone surrogate under ascii *)
+Theorem limited_api_agrees a sc v :
+  (forall s, v = PStr s -> api_exact a (sc_enc sc) s) ->
+  as_string_and_size_l a sc v = as_string_and_size_l Full sc v /\
+  charp_from_py_l a sc v = charp_from_py_l Full sc v.
+Proof.
+  intros Hx. destruct v; try (split; reflexivity).
+  split; [rewrite !as_string_and_size_str|rewrite !charp_from_py_str]; try reflexivity;
+    try apply full_exact; apply Hx; reflexivity.
+Qed.
+
 (* std::string is length based in both directions: C -> Python -> C is exact for every byte
    string (embedded NULs included) whenever the text codec inverts its own decoding *)
 Theorem string_to_from sc b v :
   (sc_type sc = SUnicode -> codec_law (sc_enc sc)) ->
   string_to_py sc (CBytes b) = Ok v -> string_from_py sc v = Ok (CBytes b).
 Proof.
-  intros Hc. unfold string_to_py, from_string_and_size, string_from_py.
+  intros Hc. unfold string_to_py, from_string_and_size, string_from_py, string_from_py_l.
   destruct (sc_type sc); cbn.
-  - intros H; inversion H; reflexivity.
-  - intros H; inversion H; reflexivity.
+  - intros H; inversion H. rewrite (proj1 (as_string_and_size_bytes Full sc b)). reflexivity.
+  - intros H; inversion H. rewrite (proj2 (as_string_and_size_bytes Full sc b)). reflexivity.
   - destruct (decode_with (sc_enc sc) b) as [s|e] eqn:Hd; cbn; intros H; inversion H; subst.
-    cbn. rewrite (Hc eq_refl _ _ Hd). reflexivity.
+    rewrite as_string_and_size_str by apply full_exact. rewrite (Hc eq_refl _ _ Hd). reflexivity.
 Qed.
 
 Theorem string_bytes_roundtrip sc b :
   sc_type sc = SBytes -> string_roundtrip sc (PBytes b) = Ok (PBytes b).
 Proof.
-  intros H. unfold string_roundtrip, string_from_py, string_to_py, from_string_and_size.
-  cbn. rewrite H. reflexivity.
+  intros H. unfold string_roundtrip, string_roundtrip_l, string_from_py_l, string_to_py, from_string_and_size.
+  rewrite (proj1 (as_string_and_size_bytes Full sc b)). cbn. rewrite H. reflexivity.
 Qed.
 
 (* c_string_type=str with a non ascii/utf8 encoding: what to_py produces is refused by from_py *)
@@ -455,8 +603,8 @@ Theorem string_latin1_raises sc b v :
   sc_type sc = SUnicode -> sc_enc sc = ELatin1 ->
   string_to_py sc (CBytes b) = Ok v -> string_from_py sc v = Err TypeError.
 Proof.
-  intros Ht He. unfold string_to_py, from_string_and_size, string_from_py. rewrite Ht, He. cbn.
-  intros H; inversion H; subst. cbn. rewrite He. reflexivity.
+  intros Ht He. unfold string_to_py, from_string_and_size, string_from_py, string_from_py_l. rewrite Ht, He. cbn.
+  intros H; inversion H; subst. rewrite as_string_and_size_str by apply full_exact. rewrite He. reflexivity.
 Qed.
 
 Lemma until_nul_id b : ~ In 0%N b -> until_nul b = b.
@@ -479,7 +627,7 @@ Qed.
 Theorem charp_nul_free_roundtrip sc b :
   sc_type sc = SBytes -> ~ In 0%N b -> charp_roundtrip sc (PBytes b) = Ok (PBytes b).
 Proof.
-  intros Ht Hn. unfold charp_roundtrip, charp_from_py, charp_to_py, from_string_and_size. cbn.
+  intros Ht Hn. unfold charp_roundtrip, charp_roundtrip_l, charp_from_py_l, charp_to_py, from_string_and_size. cbn.
   rewrite Ht, (until_nul_id b Hn). reflexivity.
 Qed.
 
@@ -488,7 +636,7 @@ Theorem charp_truncates sc b1 b2 :
   sc_type sc = SBytes -> ~ In 0%N b1 ->
   charp_roundtrip sc (PBytes (b1 ++ 0%N :: b2)) = Ok (PBytes b1).
 Proof.
-  intros Ht Hn. unfold charp_roundtrip, charp_from_py, charp_to_py, from_string_and_size. cbn.
+  intros Ht Hn. unfold charp_roundtrip, charp_roundtrip_l, charp_from_py_l, charp_to_py, from_string_and_size. cbn.
   rewrite Ht, (until_nul_cut b1 b2 Hn). reflexivity.
 Qed.
 
@@ -497,6 +645,20 @@ Theorem charp_roundtrip_refuted :
 Proof.
   exists {| sc_type := SBytes; sc_enc := ENone |}, [97; 0; 98]%N, [97]%N.
   split; [reflexivity|discriminate].
+Qed.
+
+(* char* C -> Python -> C: exact for every NUL-free buffer *)
+Theorem charp_to_from sc b v :
+  (sc_type sc = SUnicode -> codec_law (sc_enc sc)) -> ~ In 0%N b ->
+  charp_to_py sc (CBytes b) = Ok v -> charp_from_py sc v = Ok (CBytes b).
+Proof.
+  intros Hc Hn. unfold charp_to_py. rewrite (until_nul_id b Hn).
+  unfold from_string_and_size, charp_from_py.
+  destruct (sc_type sc); cbn.
+  - intros H; inversion H. reflexivity.
+  - intros H; inversion H. reflexivity.
+  - destruct (decode_with (sc_enc sc) b) as [s|e] eqn:Hd; cbn; intros H; inversion H; subst.
+    rewrite charp_from_py_str by apply full_exact. rewrite (Hc eq_refl _ _ Hd). reflexivity.
 Qed.
 
 (* ---------- struct from dict ---------- *)
@@ -592,6 +754,7 @@ Fixpoint wf (sc : scfg) (t : ctype) (c : cval) {struct t} : Prop :=
   | TLeaf (LInt w sg) => exists z, c = CInt z /\ in_range w sg z
   | TLeaf LDouble => exists d, c = CDouble d
   | TLeaf LString => exists b, c = CBytes b
+  | TLeaf LCharp => exists b, c = CBytes b /\ ~ In 0%N b
   | TVector e | TCppList e => exists l, c = CSeq l /\ Forall (wf sc e) l
   | TArray n e => exists l, c = CSeq l /\ length l = n /\ Forall (wf sc e) l
   | TSet e | TUSet e => rigid e = true /\ exists l, c = CSet l /\ NoDup l /\ Forall (wf sc e) l
@@ -668,12 +831,14 @@ Theorem to_from sc :
   forall t c v, wf sc t c -> to_py sc t c = Ok v -> from_py sc t v = Ok c.
 Proof.
   intros Hc. induction t; intros c v Hwf Hto.
-  - (* leaf *) destruct l as [w sg| |].
+  - (* leaf *) destruct l as [w sg| | |].
     + destruct Hwf as (z & -> & Hr). cbn in Hto. inversion Hto; subst.
       cbn [from_py leaf_from_py int_from_py]. apply in_rangeb_spec in Hr. rewrite Hr. reflexivity.
     + destruct Hwf as (d & ->). cbn in Hto. inversion Hto; subst. reflexivity.
     + destruct Hwf as (b & ->). cbn [to_py leaf_to_py] in Hto. cbn [from_py leaf_from_py].
       eapply string_to_from; eauto.
+    + destruct Hwf as (b & -> & Hn). cbn [to_py leaf_to_py] in Hto. cbn [from_py leaf_from_py].
+      eapply charp_to_from; eauto.
   - (* vector *) destruct Hwf as (l & -> & HF). cbn [to_py] in Hto.
     destruct (mapM (to_py sc t) l) as [vs|] eqn:Hm; cbn in Hto; inversion Hto; subst.
     cbn [from_py]. rewrite (seq_roundtrip (from_py sc t) (to_py sc t) l vs); [reflexivity| |exact Hm].
